@@ -13,7 +13,10 @@ RULE = ("core: seeded read matrices (1..6 reads, 2..6 columns, alleles 0/1, qual
         "segments, dips next to peaks, reads of varying length) so that the sqrt check-pointing keeps only every "
         "2nd/3rd/4th backward column and re-computes the others from wide and narrow ones), priors uniform / 1/3 / "
         "dyadic / unnormalised-skewed, recombination costs from {0,1,3,10,20,30}; single individuals, trios, quartets "
-        "(two children); plus the hand-made matrices of tests/test_genotyping.py. The real GenotypeDPTable runs in a "
+        "(two children); plus the hand-made matrices of tests/test_genotyping.py; small streams for the value dimensions: qualities "
+        "1, 2, 40..300 (incl. the >= 256 code path), recombination costs up to 1000, hard (zero) priors, 7-8 active reads, "
+        "pedigree roles in every index order (child not last, father not first), positions=None vs explicit positions, the "
+        "empty read set; every table is queried twice (second time in reverse order). The real GenotypeDPTable runs in a "
         "child process; its likelihoods (doubles -> exact rationals) are compared inside Coq, relative tolerance 1e-9, "
         "with (L1) the plain brute-force posterior over (bipartition, transmission path, assignment path) on tiny "
         "instances and its per-bipartition chain form on all (both proved equal to posterior_spec, C08_spec_variants) "
@@ -23,7 +26,11 @@ RULE = ("core: seeded read matrices (1..6 reads, 2..6 columns, alleles 0/1, qual
         "check-pointed forward-backward pass. CLI: `whatshap genotype` on synthetic reference/VCF/BAM data (single "
         "sample; trio with PED; 3-4 unrelated samples with --sample selecting every position subset (first, middle, "
         "last, pairs, all); trio plus unrelated extra VCF columns before/after/inside the family with --ped "
-        "--use-ped-samples; one or two chromosomes with --chromosome subsets; --no-priors and prior genotyping; "
+        "--use-ped-samples; one or two chromosomes with --chromosome subsets; quartets; PED with and without --use-ped-samples; "
+        "random sample names (roles and column order independent of names), --sample options in any order, one BAM or "
+        "one per sample, 1-2 read groups per sample, paired reads, SNV and indel/MNP variants, --only-snvs (records "
+        "outside the variant table), --constant, --prioroutput (the prior VCF is checked as well), --ignore-read-groups, "
+        "integer and fractional thresholds 0..100, a chromosome / a sample without reads; --no-priors and prior genotyping; "
         "several --gt-qual-threshold / --max-coverage / --recombrate); every call of every sample of every record "
         "on a processed chromosome is checked (samples that were not to be genotyped must have uniform/absent GL, "
         "GT ./. and no GQ), against the rules alone (L1) and against the writer model on the likelihood table "
@@ -332,6 +339,11 @@ def check_core(ctx, labelled, tag="core"):
             ctx.violation("core:crash", f"GenotypeDPTable fails on a valid instance: {r} instance={json.dumps(inst)}",
                           {"kind": "core", "inst": inst})
             continue
+        import math
+        if not all(math.isfinite(float.fromhex(h)) for row in r["ok"] for tr in row for h in tr):
+            ctx.violation("core:not-finite", f"GenotypeDPTable returns nan/inf likelihoods on a valid instance: {json.dumps(inst)} -> {r['ok']}",
+                          {"kind": "core", "inst": inst})
+            continue
         ctx.count(G.inst_key(inst), nontrivial=nontrivial(inst))
         term = case_term(inst, r["ok"])
         cost = cost_estimate(inst)
@@ -339,7 +351,7 @@ def check_core(ctx, labelled, tag="core"):
         for key, v in G.shape_tallies(inst).items():
             ctx.tally(f"{tag}.shape.{key}", v)
         nr = len(inst["reads"])
-        if nr <= (5 if label.endswith("-profile") else 8) and not (label == "trio-profile" and nr > 3):
+        if nr <= (5 if label.endswith("-profile") else 6) and not (label == "trio-profile" and nr > 3):
             checks = [("L2", cost), ("L1chain", cost * (1 + 2 ** max(0, nr - 6) // 8)), ("L1sum", 1)]
         else:
             # one evaluation of fb_run serves as L2 and, through the theorem, as L1
@@ -661,15 +673,17 @@ def exec_cli(ctx, spec, d):
 
 
 def cli_cases(ctx, n):
+    from concurrent.futures import ThreadPoolExecutor
     from ..util import workdir
     wd = workdir(ctx)
-    out = []
+    jobs = []
     for k, (kind, opt) in enumerate(cli_plan(ctx, n)):
-        spec = cli_spec(ctx.rng, kind, opt)
+        spec = cli_spec(ctx.rng, kind, opt)          # all random choices are made here, sequentially
         d = os.path.join(wd, f"cli{k}")
         os.makedirs(d)
-        out.append(exec_cli(ctx, spec, d))
-    return out
+        jobs.append((spec, d))
+    with ThreadPoolExecutor(max_workers=8) as ex:
+        return list(ex.map(lambda j: exec_cli(ctx, j[0], j[1]), jobs))
 
 
 def check_cli(ctx, n):
@@ -827,7 +841,14 @@ def gl_values(gl):
     """GL field -> [10^GL] as exact rationals of the python floats, None if absent"""
     if gl in (None, "."):
         return None
-    return [Fraction(10.0 ** float(x)) for x in gl.split(",")]
+    vals = []
+    for x in gl.split(","):
+        try:
+            v = 10.0 ** float(x)
+            vals.append(Fraction(v))
+        except (ValueError, OverflowError):
+            vals.append(Fraction(-1))      # nan / inf / unparsable: fails every GL rule (not a distribution)
+    return vals
 
 
 def wcli_term(thr, wcalls):
